@@ -93,7 +93,10 @@ def gen_case(rng: random.Random, tier: str) -> dict:
     outer = {"rename_in": rng.random() < 0.3, "rename_out": rng.random() < 0.3, "consumer": rng.random() < 0.5,
              "rename_after_map": rng.random() < 0.4,  # with_inputs/with_outputs called after map_over instead of before
              "inner_bind_equal": rng.random() < 0.25,  # the inner graph binds a broadcast input to an EQUAL (not identical) value
-             "inner_select": rng.random() < 0.25}  # runner.map on a graph that carries a default selection
+             "inner_select": rng.random() < 0.25,  # runner.map on a graph that carries a default selection
+             # the mapping node object is first configured differently and EXECUTED, then re-configured (map_over called again on that
+             # very object) into the node under test: nothing of the earlier configuration may survive
+             "reconfigure": rng.random() < 0.25}
     map_order = list(mapped)
     rng.shuffle(map_order)  # declared map_over order (the axis order of a product) need not be the signature order
     cfgs = []
@@ -104,7 +107,9 @@ def gen_case(rng: random.Random, tier: str) -> dict:
             vals = lists[mapped[0]]
             sch["arg_delay"] = {"param": mapped[0], "table": {str(v): (len(vals) - t) * 3 if style == "reverse" else 2 for t, v in enumerate(vals)}}
         cfgs.append({"schedule": sch, "shuffle": rng.randrange(1 << 30) if rng.random() < 0.2 else None, "max_concurrency": rng.choice([None, None, 1, 2, 3])})
-    return {"inner": inner, "map_mode": mode, "lists": lists, "broadcast": broadcast, "clone": clone, "error_handling": rng.choice(["raise", "continue"]), "fault": fault, "fault2": fault2, "via": via, "outer": outer, "async": cfgs, "map_order": map_order}
+    return {"inner": inner, "map_mode": mode, "lists": lists, "broadcast": broadcast, "clone": clone, "error_handling": rng.choice(["raise", "continue"]), "fault": fault, "fault2": fault2, "via": via,
+            # shape of each broadcast value: a list, a tuple holding a list, a dict holding a list (clone means DEEP copy per item)
+            "bc_shape": {b: rng.choice(["list", "list", "tuple", "dict"]) for b in inner["bc"]}, "outer": outer, "async": cfgs, "map_order": map_order}
 
 
 def _prod(xs) -> int:
@@ -167,6 +172,39 @@ def _outer_spec(doc: dict) -> tuple[dict, dict, dict]:
     return {"name": "outer", "nodes": nodes, "order": list(range(len(nodes)))}, rin, rout
 
 
+def _run_reconfigured(ospec: dict, vals: dict, label: str, cfg) -> dict:
+    """Build the outer graph with the mapping node configured DIFFERENTLY (fewer mapped parameters or another order, other clone setting),
+    run it once, then call map_over again on that very node object to obtain the configuration under test, and run that."""
+    import hypergraph as hg
+
+    final = ospec["nodes"][0]
+    first = dict(final)
+    mo = list(final["map_over"])
+    first["map_over"] = mo[:1] if len(mo) > 1 else mo
+    if len(mo) > 1 and final.get("map_mode") == "product":
+        first["map_over"] = list(reversed(mo))
+    first["clone"] = not bool(final.get("clone"))
+    first["error_handling"] = "continue"
+    spec0 = dict(ospec, nodes=[first] + list(ospec["nodes"][1:]))
+    box: dict = {}
+
+    def prep(rt, graph, comp):
+        box["comp"] = comp
+
+    def derive(graph):
+        comp = box["comp"]
+        m2 = comp.nodes["inner"].map_over(*final["map_over"], mode=final.get("map_mode", "zip"), error_handling=final.get("error_handling", "raise"), clone=final.get("clone", False))
+        others = [comp.nodes[nd["name"]] for nd in ospec["nodes"][1:]]
+        return hg.Graph([m2] + others, name="outer")
+
+    w = run_world(spec0, vals, mode=label, cfg=cfg, run_kwargs={"error_handling": "raise"}, prepare=prep, derive=derive, warm_values=vals)
+    hist = w["rt"].history
+    mk = [i for i, h in enumerate(hist) if h["k"] == "derive_marker"]
+    if mk:
+        w["rt"].history = hist[mk[-1] + 1 :]
+    return w
+
+
 def _inner_spec(doc: dict, *, for_runner_map: bool = False) -> dict:
     inner = doc["inner"]
     spec = {k: v for k, v in inner.items() if k in ("name", "nodes", "order")}
@@ -180,6 +218,25 @@ def _inner_spec(doc: dict, *, for_runner_map: bool = False) -> dict:
         if outs:
             spec = dict(spec, select=outs[: max(1, len(outs) // 2)])
     return spec
+
+
+def _bc_values(doc: dict) -> dict:
+    out = {}
+    for b, v in doc["broadcast"].items():
+        shape = (doc.get("bc_shape") or {}).get(b, "list")
+        if doc["outer"].get("inner_bind_equal"):
+            shape = "list"
+        out[b] = list(v) if shape == "list" else ((list(v),) if shape == "tuple" else {"k": list(v)})
+    return out
+
+
+def _inner_parts(o) -> list:
+    """The mutable objects held inside a broadcast value (for deep-copy identity checks)."""
+    if isinstance(o, tuple):
+        return [x for x in o if isinstance(x, (list, dict))]
+    if isinstance(o, dict):
+        return [x for x in o.values() if isinstance(x, (list, dict))]
+    return []
 
 
 def _item_summary(o: dict) -> list:
@@ -201,13 +258,13 @@ def run_case(doc: dict) -> dict:
         # reference: every combination executed alone
         refs = []
         for c in cs:
-            vals = {**{b: list(v) for b, v in doc["broadcast"].items()}, **c}
+            vals = {**_bc_values(doc), **c}
             w = run_world(ispec, vals, mode="sync", faults=copy.deepcopy(faults), run_kwargs={"error_handling": "continue"})
             rts.append(w["rt"])
             res["runs"] += 1
             refs.append(w["out"])
         failing = [i for i, r in enumerate(refs) if r["status"] == "failed"]
-        bvals = {b: list(v) for b, v in doc["broadcast"].items()}
+        bvals = _bc_values(doc)
         plans = [("sync", None)] + [("async", c) for c in doc["async"]]
         for label, cfg in plans:
             tag = label
@@ -219,7 +276,11 @@ def run_case(doc: dict) -> dict:
             else:
                 ospec, rin, rout = _outer_spec(doc)
                 vals = {**{rin.get(b, b): v for b, v in bvals.items()}, **{rin.get(m, m): list(doc["lists"][m]) for m in mapped}}
-                w = run_world(ospec, vals, mode=label, cfg=cfg, faults=copy.deepcopy(faults), run_kwargs={"error_handling": "raise"})
+                if doc["outer"].get("reconfigure") and not faults and not doc["outer"].get("rename_after_map") and ospec["nodes"][0].get("map_over"):
+                    w = _run_reconfigured(ospec, vals, label, cfg)
+                    res["stats"]["mapping_node_reconfigured_after_use"] = res["stats"].get("mapping_node_reconfigured_after_use", 0) + 1
+                else:
+                    w = run_world(ospec, vals, mode=label, cfg=cfg, faults=copy.deepcopy(faults), run_kwargs={"error_handling": "raise"})
                 _judge_node(doc, w, refs, failing, cs, rout, tag, viol)
                 vals = {b: vals[rin.get(b, b)] for b in bvals}  # back to the inner names for the identity check
             _judge_clone(doc, w, vals, cs, tag, viol)
@@ -353,8 +414,8 @@ def _judge_clone(doc, w, vals, cs, tag, viol) -> None:
             if any(o is not orig for o in objs):
                 viol.append((f"{tag}:broadcast_value_copied_without_clone", {"param": b}))
         else:
-            if any(o is orig for o in objs):
-                viol.append((f"{tag}:broadcast_value_shared_despite_clone", {"param": b}))
+            if any(o is orig for o in objs) or any(x is y for o in objs for x in _inner_parts(o) for y in _inner_parts(orig)):
+                viol.append((f"{tag}:broadcast_value_shared_despite_clone", {"param": b, "shape": type(orig).__name__}))
             firsts = [lst[0] for lst in seen_by_item.values()]
             if len({id(o) for o in firsts}) != len(firsts):
                 viol.append((f"{tag}:clone_shared_between_items", {"param": b}))
